@@ -59,6 +59,10 @@ def as_narr(I, ctx, v, n_hint=None):
     if isinstance(v, (SymList, SeqVal)):
         seq = I.as_seq(ctx, v)
         return NArr(seq.length, seq.elem, "object", "from-seq")
+    if isinstance(v, ClassVal) and getattr(v, "enum_members", None) is not None:
+        # numpy.array(EnumClass): iterating an enumeration yields its (canonical) members in declaration order
+        items = list(v.enum_members.values())
+        return NArr(len(items), lambda i, items=items: I._concrete_index(items, i), "object", "from-enum-class")
     if scalar_like(v):
         # 0-d: treated as broadcastable scalar
         return None
@@ -330,7 +334,10 @@ def install(I):
         if a is None:
             return NArr(1, lambda i: v, "float", "0d") if False else Opaque(None, "0d-array", {"scalar": True, "value": v})
         if a.dtype == "object" and not isinstance(v, NArr):
-            probe = a.elem(z3.Int(ctx.fresh_name("row_probe")))
+            try:
+                probe = a.elem(z3.Int(ctx.fresh_name("row_probe"))) if not isinstance(a.n, int) else (a.elem(0) if a.n > 0 else None)
+            except Unsupported:
+                probe = None
             if isinstance(probe, NArr):
                 # a sequence of 1-D arrays: a 2-D array whose row k is the k-th of them (rows of one length: the length of a
                 # row may not depend on the row)
